@@ -4,7 +4,10 @@
    these three grammars).  Executable definitions only.
 
    Result of a parser (nom::IResult):
-     POk rest a   Ok((rest, a))
+     POk rest n a Ok((rest, a)); n = number of scalar values consumed (input.len - rest.len
+                  counted in chars; proved in IoNomProofs.psound).  nom compares
+                  input_len() before/after in its loop guards (O(1) on slices); the model
+                  tests n = 0 instead of recomputing list lengths.
      PErr k       Err(nom::Err::Error(..))     recoverable (alt / opt / many stop on it)
      PFail k      Err(nom::Err::Failure(..))   produced by cut(), propagated by every combinator
      PPanic s     the Rust code would panic (index out of bounds, ...)
@@ -15,7 +18,7 @@ From LMIo Require Import IoBase.
 Import ListNotations.
 
 Inductive pres (A : Type) : Type :=
-| POk (rest : list N) (a : A)
+| POk (rest : list N) (n : nat) (a : A)
 | PErr (kind : nat)
 | PFail (kind : nat)
 | PPanic (site : nat)
@@ -33,7 +36,11 @@ Definition KEof := 10. Definition KFloat := 11. Definition KAlt := 12.
 
 Definition pbind {A B} (r : pres A) (k : list N -> A -> pres B) : pres B :=
   match r with
-  | POk rest a => k rest a
+  | POk rest n a =>
+      match k rest a with
+      | POk rest' n' b => POk rest' (n + n') b
+      | x => x
+      end
   | PErr e => PErr e
   | PFail e => PFail e
   | PPanic s => PPanic s
@@ -53,34 +60,34 @@ Fixpoint strip_prefix (t i : list N) : option (list N) :=
 (* bytes::complete::tag *)
 Definition p_tag (t : list N) : parser (list N) := fun i =>
   match strip_prefix t i with
-  | Some r => POk r t
+  | Some r => POk r (length t) t
   | None => PErr KTag
   end.
 
 (* character::complete::char *)
 Definition p_char (c : N) : parser N := fun i =>
   match i with
-  | x :: r => if N.eqb x c then POk r c else PErr KChar
+  | x :: r => if N.eqb x c then POk r 1 c else PErr KChar
   | [] => PErr KChar
   end.
 
 (* character::complete::anychar *)
 Definition p_anychar : parser N := fun i =>
   match i with
-  | x :: r => POk r x
+  | x :: r => POk r 1 x
   | [] => PErr KEof
   end.
 
 (* bytes::complete::take_while (split_at_position_complete): never fails *)
 Definition p_take_while (p : N -> bool) : parser (list N) := fun i =>
-  let (a, r) := span p i in POk r a.
+  let (a, r) := span p i in POk r (length a) a.
 
 (* split_at_position1_complete: at least one item *)
 Definition p_take_while1 (p : N -> bool) (kind : nat) : parser (list N) := fun i =>
   let (a, r) := span p i in
   match a with
   | [] => PErr kind
-  | _ => POk r a
+  | _ => POk r (length a) a
   end.
 
 Definition p_space0 : parser (list N) := p_take_while is_blank.
@@ -93,14 +100,14 @@ Definition p_take_until_nl : parser (list N) := fun i =>
   let (a, r) := span (fun c => negb (N.eqb c 10)) i in
   match r with
   | [] => PErr KTakeUntil
-  | _ => POk r a
+  | _ => POk r (length a) a
   end.
 
 (* character::complete::line_ending: "\n" or "\r\n" *)
 Definition p_line_ending : parser (list N) := fun i =>
   match i with
-  | 10%N :: r => POk r [10%N]
-  | 13%N :: 10%N :: r => POk r [13%N; 10%N]
+  | 10%N :: r => POk r 1 [10%N]
+  | 13%N :: 10%N :: r => POk r 2 [13%N; 10%N]
   | _ => PErr KCrLf
   end.
 
@@ -109,37 +116,37 @@ Definition p_line_ending : parser (list N) := fun i =>
 Definition p_not_line_ending : parser (list N) := fun i =>
   let (a, r) := span (fun c => negb (N.eqb c 13 || N.eqb c 10)) i in
   match r with
-  | 13%N :: 10%N :: _ => POk r a
+  | 13%N :: 10%N :: _ => POk r (length a) a
   | 13%N :: _ => PErr KTag
-  | _ => POk r a
+  | _ => POk r (length a) a
   end.
 
 (* character::complete::u32: ASCII digits, checked_mul/checked_add, overflow is
    Error(Digit); no sign; value returned as N (< 2^32) *)
 Definition u32_max : N := 4294967295.
 
-Fixpoint u32_loop (acc : N) (first : bool) (i : list N) : pres N :=
+Fixpoint u32_loop (acc : N) (cnt : nat) (i : list N) : pres N :=
   match i with
-  | [] => if first then PErr KDigit else POk [] acc
+  | [] => match cnt with 0 => PErr KDigit | _ => POk [] cnt acc end
   | c :: r =>
       if is_digit c then
         let v := (acc * 10 + (c - 48))%N in
-        if N.leb v u32_max then u32_loop v false r else PErr KDigit
-      else if first then PErr KDigit else POk i acc
+        if N.leb v u32_max then u32_loop v (S cnt) r else PErr KDigit
+      else match cnt with 0 => PErr KDigit | _ => POk i cnt acc end
   end.
 
-Definition p_u32 : parser N := u32_loop 0 true.
+Definition p_u32 : parser N := u32_loop 0 0.
 
 (* ---------- combinators ---------- *)
 
 Definition p_map {A B} (f : A -> B) (p : parser A) : parser B := fun i =>
-  pbind (p i) (fun r a => POk r (f a)).
+  pbind (p i) (fun r a => POk r 0 (f a)).
 
 (* combinator::map_res: an Err of the function is Error(MapRes) at the original input *)
 Definition p_map_res {A B} (p : parser A) (f : A -> res B) : parser B := fun i =>
   pbind (p i) (fun r a =>
     match f a with
-    | Ok b => POk r b
+    | Ok b => POk r 0 b
     | Err _ => PErr KMapRes
     | Panic s => PPanic s
     | OutOfFuel => PFuel
@@ -148,8 +155,8 @@ Definition p_map_res {A B} (p : parser A) (f : A -> res B) : parser B := fun i =
 (* combinator::opt: Error becomes None, everything else is passed on *)
 Definition p_opt {A} (p : parser A) : parser (option A) := fun i =>
   match p i with
-  | POk r a => POk r (Some a)
-  | PErr _ => POk i None
+  | POk r n a => POk r n (Some a)
+  | PErr _ => POk i 0 None
   | PFail e => PFail e
   | PPanic s => PPanic s
   | PFuel => PFuel
@@ -170,73 +177,80 @@ Definition p_alt {A} (p q : parser A) : parser A := fun i =>
   end.
 
 Definition p_pair {A B} (p : parser A) (q : parser B) : parser (A * B) := fun i =>
-  pbind (p i) (fun r a => pbind (q r) (fun r' b => POk r' (a, b))).
+  pbind (p i) (fun r a => pbind (q r) (fun r' b => POk r' 0 (a, b))).
 
 Definition p_preceded {A B} (p : parser A) (q : parser B) : parser B := fun i =>
   pbind (p i) (fun r _ => q r).
 
 Definition p_terminated {A B} (p : parser A) (q : parser B) : parser A := fun i =>
-  pbind (p i) (fun r a => pbind (q r) (fun r' _ => POk r' a)).
+  pbind (p i) (fun r a => pbind (q r) (fun r' _ => POk r' 0 a)).
 
 Definition p_delimited {A B C} (p : parser A) (q : parser B) (s : parser C) : parser B := fun i =>
-  pbind (p i) (fun r _ => pbind (q r) (fun r' b => pbind (s r') (fun r'' _ => POk r'' b))).
+  pbind (p i) (fun r _ => pbind (q r) (fun r' b => pbind (s r') (fun r'' _ => POk r'' 0 b))).
 
 Definition p_separated_pair {A B C} (p : parser A) (sep : parser B) (q : parser C) : parser (A * C) :=
   fun i =>
-  pbind (p i) (fun r a => pbind (sep r) (fun r' _ => pbind (q r') (fun r'' c => POk r'' (a, c)))).
+  pbind (p i) (fun r a => pbind (sep r) (fun r' _ => pbind (q r') (fun r'' c => POk r'' 0 (a, c)))).
 
 (* combinator::recognize: the consumed input slice *)
 Definition p_recognize {A} (p : parser A) : parser (list N) := fun i =>
-  pbind (p i) (fun r _ => POk r (firstn (length i - length r) i)).
+  match p i with
+  | POk r n _ => POk r n (firstn n i)
+  | PErr e => PErr e
+  | PFail e => PFail e
+  | PPanic s => PPanic s
+  | PFuel => PFuel
+  end.
 
 (* multi::separated_list0(sep, f).  The loop runs on fuel (one unit per element);
    nom's own infinite-loop guard (a separator that consumes nothing is an Error)
    makes S (length input) units always enough. *)
 Fixpoint sep_list0_loop {A B} (sep : parser B) (f : parser A) (fuel : nat)
-         (i : list N) (acc : list A) : pres (list A) :=
+         (i : list N) (cnt : nat) (acc : list A) : pres (list A) :=
   match fuel with
   | 0 => PFuel
   | S fuel' =>
       match sep i with
-      | PErr _ => POk i (rev acc)
+      | PErr _ => POk i cnt (rev acc)
       | PFail e => PFail e
       | PPanic s => PPanic s
       | PFuel => PFuel
-      | POk i1 _ =>
-          if length i1 =? length i then PErr KSeparatedList
+      | POk i1 n1 _ =>
+          if n1 =? 0 then PErr KSeparatedList      (* i1.input_len() == len *)
           else
             match f i1 with
-            | PErr _ => POk i (rev acc)
+            | PErr _ => POk i cnt (rev acc)
             | PFail e => PFail e
             | PPanic s => PPanic s
             | PFuel => PFuel
-            | POk i2 o => sep_list0_loop sep f fuel' i2 (o :: acc)
+            | POk i2 n2 o => sep_list0_loop sep f fuel' i2 (n1 + n2 + cnt) (o :: acc)
             end
       end
   end.
 
 Definition p_separated_list0 {A B} (sep : parser B) (f : parser A) : parser (list A) := fun i =>
   match f i with
-  | PErr _ => POk i []
+  | PErr _ => POk i 0 []
   | PFail e => PFail e
   | PPanic s => PPanic s
   | PFuel => PFuel
-  | POk i1 o => sep_list0_loop sep f (S (length i1)) i1 [o]
+  | POk i1 n o => sep_list0_loop sep f (S (length i1)) i1 n [o]
   end.
 
 (* multi::many1(f) *)
-Fixpoint many1_loop {A} (f : parser A) (fuel : nat) (i : list N) (acc : list A) : pres (list A) :=
+Fixpoint many1_loop {A} (f : parser A) (fuel : nat) (i : list N) (cnt : nat) (acc : list A)
+  : pres (list A) :=
   match fuel with
   | 0 => PFuel
   | S fuel' =>
       match f i with
-      | PErr _ => POk i (rev acc)
+      | PErr _ => POk i cnt (rev acc)
       | PFail e => PFail e
       | PPanic s => PPanic s
       | PFuel => PFuel
-      | POk i1 o =>
-          if length i1 =? length i then PErr KMany1
-          else many1_loop f fuel' i1 (o :: acc)
+      | POk i1 n1 o =>
+          if n1 =? 0 then PErr KMany1              (* i1.input_len() == len *)
+          else many1_loop f fuel' i1 (n1 + cnt) (o :: acc)
       end
   end.
 
@@ -246,7 +260,7 @@ Definition p_many1 {A} (f : parser A) : parser (list A) := fun i =>
   | PFail e => PFail e
   | PPanic s => PPanic s
   | PFuel => PFuel
-  | POk i1 o => many1_loop f (S (length i1)) i1 [o]
+  | POk i1 n o => many1_loop f (S (length i1)) i1 n [o]
   end.
 
 (* ---------- number::complete::float ---------- *)
@@ -266,7 +280,7 @@ Fixpoint strip_prefix_nocase (t i : list N) : option (list N) :=
 (* bytes::complete::tag_no_case with a lower-case ASCII tag; returns the matched input *)
 Definition p_tag_no_case (t : list N) : parser (list N) := fun i =>
   match strip_prefix_nocase t i with
-  | Some r => POk r (firstn (length t) i)
+  | Some r => POk r (length t) (firstn (length t) i)
   | None => PErr KTag
   end.
 
@@ -307,14 +321,15 @@ Definition p_recognize_float_or_exceptions : parser (list N) := fun i =>
   end.
 
 Section Float.
-  (* Rust's str::parse::<f32> on a recognised token, as IEEE bits; not modelled:
-     supplied by the harness (trusted base), see notes/io.md *)
-  Variable parse_f32 : list N -> option Z.
+  (* Rust's str::parse::<f32> on a recognised token; not modelled: supplied by the
+     harness (trusted base), see notes/io.md *)
+  Context {F : Type}.
+  Variable parse_f32 : list N -> option F.
 
-  Definition p_float : parser Z := fun i =>
+  Definition p_float : parser F := fun i =>
     pbind (p_recognize_float_or_exceptions i) (fun r tok =>
       match parse_f32 tok with
-      | Some bits => POk r bits
+      | Some f => POk r 0 f
       | None => PErr KFloat
       end).
 End Float.
